@@ -115,6 +115,14 @@ def check_C09(ctx):
                     stream = pre + inst + post
                     src = 'DEFINE PRIO 2 %s AS %s END DEFINE\n%s' % (' '.join(pat), ' '.join(body), ' '.join(stream))
                     cases.append((fam, stream, src))
+    # layered macros: the inner macro's keyword / punctuation occurs NOWHERE in the source outside the definitions — it reaches
+    # the stream only through the outer macro's body
+    for K in ['(', ')', ':=', '=', ';', ',', ':', 'GOTO', 'IF', 'THEN', 'LOOP', 'DO', 'WHILE', 'STOP', 'RUN', 'WITH', 'END', '+', '7']:
+        for prio_in, prio_out in ((2, 2), (5, 1), (1, 5)):
+            fam = [(prio_out, ['aa', '<ID>'], ['bb', K, '$0']), (prio_in, ['bb', K, '<ID>'], ['zz', '$0', 'zz'])]
+            for stream in (['aa', 'x'], ['q', 'aa', 'x', 'q', 'aa', 'y']):
+                src = '\n'.join('DEFINE PRIO %d %s AS %s END DEFINE' % (pr, ' '.join(pat), ' '.join(body)) for (pr, pat, body) in fam) + '\n' + ' '.join(stream)
+                cases.append((fam, stream, src))
     for _ in range(ctx.n(300, 3000)):
         macros, stream, src = front.macro_case(r)
         cases.append((macros, stream, src))
@@ -323,6 +331,27 @@ def check_C12(ctx):
         ctx.nontrivial('set:' + t[:200])
         ctx.dist('set_rejected_%d' % len(want))
     ctx.cov['macro_sets'] = len(sets)
+    # the same sets with every definition in a FILE OF ITS OWN, all on line 1 (equal line numbers in different files): each
+    # rejected definition is reported at its own file
+    msets = [ms for ms in sets if all(re.fullmatch(r'k\d+', m[0]) for m in ms)][:ctx.n(80, 600)]
+    mreqs = []
+    for ms in msets:
+        fl = {('d%d' % i).encode(): ('DEFINE %s AS r%s END DEFINE\n' % (' '.join(m), m[0][1:])).encode() for i, m in enumerate(ms)}
+        fl[b'm'] = (' '.join('include "d%d"' % i for i in range(len(ms))) + '\n' + ' @ '.join(' '.join(FILL.get(x, x) for x in m) for m in ms)).encode()
+        mreqs.append(fl)
+    msc = impl(ctx, ['SCAN ' + files_req(b'm', fl) for fl in mreqs])
+    mex = impl(ctx, ['EXTRACT ' + (fields(o)['toks'] if not is_crash(o) else '-') for o in msc])
+    mapp = impl(ctx, ['APPLY 12 %s %s' % (fields(e)['macros'], fields(e)['out']) if not is_crash(e) else 'APPLY 12 - -' for e in mex])
+    for ms, fl, x in zip(msets, mreqs, mapp):
+        ctx.cov['evaluations'] += 1
+        if is_crash(x):
+            continue
+        got = sorted((e[1].decode('latin1'), e[2]) for e in parse_perrs(fields(x)['errs']) if e[0] == P['MACRO_COMPILE_NON_LR'])
+        want = sorted(('d%d' % i, 1) for i, m in enumerate(ms) if verdict.get(' '.join(m)))
+        if got != want:
+            ctx.violation('nonlr-set-verdict', 'definitions in files of their own (all on line 1): non-linear errors reported at %s, expected at %s' % (got, want),
+                          {'files': {k.decode(): v.decode() for k, v in fl.items()}})
+            break
     # uses of a rejected macro stay unrewritten
     t = 'DEFINE foo <P> AS x END DEFINE\nfoo a := 1'
     tk = front.scan_tokens(ctx, [t])[0]
